@@ -387,6 +387,23 @@ theorem set_nexthop_refuses_unimplemented (b : B N) :
     setMpNexthop b .unimplemented = none ∧ ∀ nh, (setMpNexthop b (.known nh)).isSome = true :=
   ⟨rfl, fun _ => rfl⟩
 
+/-- A link-local address is accepted exactly next to an IPv6 next hop (or none
+yet); the builder then holds the 32-octet form. Next to any other next hop it
+is an error (`IllegalCombination`), not a panic – so `set_nexthop_ll_addr`
+cannot take a builder outside the states the theorems above range over. -/
+theorem set_nexthop_ll_spec (b : B N) :
+    (match setNexthopLl b with
+     | some b' => (∃ l, b'.ann = some (l, .ll)) ∧ b'.wd = b.wd ∧ b'.attrs = b.attrs ∧ b'.annList = b.annList
+     | none => ∃ l nh, b.ann = some (l, nh) ∧ nh ≠ .v6 ∧ nh ≠ .ll) := by
+  unfold setNexthopLl
+  cases h : b.ann with
+  | none => simp [B.annList, h]
+  | some p =>
+    obtain ⟨l, nh⟩ := p
+    cases nh <;> first
+      | (simp [B.annList, h]; done)
+      | exact ⟨l, _, rfl, by decide, by decide⟩
+
 /-- The iterator and `into_messages` are the same loop: when `into_messages`
 succeeds, `PduIterator` yields exactly those messages (all `Ok`) and then ends –
 so conservation, attributes and non-emptiness hold for the iterator's output too. -/
